@@ -26,13 +26,23 @@ MANIFEST = dict(
           "under the m1 test, FPBA = best seen, the bracket invariant (new trial strictly inside), miu0 in its range / miu positive (range "
           "not kept: refuted), lambda >= 1 and momentum coefficients in [0,1). The real csearch_t / proximity_t / nesterov objects of the "
           "mirrored loops are observed at every evaluation and replayed by the extracted model. "
+          "Extension WHOLE: ONE composed model of a whole RQB / FPBA run (the abstract oracles instantiated with the bundle operations, a "
+          "first-order oracle of a convex objective, proximal / delta / smeared_e/s / econverged / sconverged, proximity_t and the Nesterov "
+          "sequence; remaining oracles: QP answer, rows surviving delete_largest, the function, the square root): for every convex objective, "
+          "every QP answer in the simplex, every deletion answer, every parameter set and budget the bundle invariant holds throughout, no "
+          "bundle operation is ever rejected (solve precedes every append), RQB's centre value never increases (delta >= 0 derived, not "
+          "assumed), and `converged` certifies f(centre) - f(z) <= tol + tol|centre - z| for all z, hence the property's first clause for the "
+          "returned point (RQB: the centre; FPBA: the best evaluated point, f(x_ret) <= f(centre)) as ONE theorem per solver; under keep_ok "
+          "the capacity is never reached, and keep_ok cannot be dropped (witness). Stage WHOLE: the extracted composed model replays complete "
+          "mirrored runs from their recorded oracle answers and must reproduce exit, status, iterations, evaluations, state value, centre, "
+          "returned point and all serious-step centres exactly. "
           "The integer / boolean decisions (aggregation trigger, capacities, csearch convergence, status hand-over, "
           "solver_t::done) are regenerated from the source on every run. The extracted model replays every operation of "
           "random op sequences on real bundle_t objects and of RQB/FPBA loops mirrored on the public classes (which must "
           "reproduce the real solvers bit for bit); the real solvers are searched with the property's inequalities against "
           "analytically known minimisers. The n-D deep-cut update and `ellipsoid always converges for n <= 6` are "
           "searched, not proved."),
-    note=("Coq kernel (no axioms); translator (45 kernels, 23 of them the control flow of csearch.cpp / rqb.cpp / fpba.cpp: float comparisons are "
+    note=("Coq kernel (no axioms); translator (47 kernels, 23 of them the control flow of csearch.cpp / rqb.cpp / fpba.cpp: float comparisons are "
           "atomised into named booleans, so a changed operand breaks the anchor); stage LOOP observes the operands of the curve-search tests "
           "from the real bundle inside the function-evaluation callback (private members of csearch_t / proximity_t / nesterov_sequence_t "
           "through `#define private public`), gy.(y-x) and s.(y-x) are recomputed by the harness; the outer loops are the harness' mirror "
@@ -40,7 +50,10 @@ MANIFEST = dict(
           "extraction with ExtrOcamlZBigInt (Zarith); harness against the "
           "library built from the working tree (private members of bundle_t read through `#define private public`); "
           "float rounding is outside the theorems (compared within 1e-9 of the summed terms); the QP solver and "
-          "nth_element are oracles of the model (their answers are taken from the run and checked: simplex, subsequence)."),
+          "nth_element are oracles of the model (their answers are taken from the run and checked: simplex, subsequence). "
+          "WHOLE: the theorems need max_size >= 3 (with 2 the aggregate would use the closed-form multipliers, which are not clean) and the "
+          "oracle conditions qp_ok / ev_ok (keep_ok for the capacity clause only); the replay runs on Qplus / Qmult extracted to their "
+          "lowest-terms versions (compared through Qeq_bool = cross-multiplication); every recorded run is also replayed pass by pass, decisions are compared one by one and only those within 1e-9 of the summed magnitudes of their terms follow the library (counted in the evidence), everything else is a reported mismatch."),
     technique="Coq proof over Q of a translated+extracted model, differential correspondence per operation, "
               "mirrored solver loops, direct property oracle on the real solvers",
     design="DESIGN.md section 2, C03")
@@ -52,7 +65,7 @@ FP_DELETE_LARGEST = "bundle_t::delete_largest threshold index (size reaches capa
 # second genuine defect (known finding): a far curve-search trial point (|f| ~ 2^56) rounds the null-step linearisation error by
 # ulp(f) >> tolerance; the harness prints such certificate / converged-not-optimal failures as KFAIL (narrow rule, see the harness)
 FP_FAR_TRIAL = "C03-false-convergence-by-cancellation-at-far-trial-point"
-DRIVER_PREFIXES = ("B ", "E1 ", "D ", "CS ", "ELL ", "LI ", "PX ", "PX0 ", "NS ")
+DRIVER_PREFIXES = ("B ", "E1 ", "D ", "CS ", "ELL ", "LI ", "PX ", "PX0 ", "NS ", "W ")
 
 
 def _build_driver():
@@ -260,12 +273,14 @@ def run(tier, replay=None):
                         no_input=not ok_id)
     vlib.handle_coq_failure(r, cres)
     vlib.proof_coverage(r, cres, "make -C coq theories/Properties_C03.vo && coqc theories/Properties_C03.v (Print Assumptions)",
-                        ["tools/translate.py (45 kernels of bundle.cpp/csearch.cpp/rqb.cpp/fpba.cpp/ellipsoid.cpp/solver.cpp)",
+                        ["tools/translate.py (47 kernels of bundle.cpp/csearch.cpp/rqb.cpp/fpba.cpp/ellipsoid.cpp/solver.cpp)",
                          "extraction: ExtrOcamlBasic + ExtrOcamlZBigInt (Z, positive -> Zarith)",
                          "ocaml/c03_driver.ml, harness/c03_bundle.cpp (reads bundle_t's private members), g++ -O2",
                          "the harness' mirrored RQB/FPBA loops (checked bit-for-bit against the real solvers on every run)",
                          "stage LOOP: the evaluation callback that reads t / miu / the operands of the m1..m4 tests from the real csearch_t, bundle_t and "
-                         "proximity_t objects; decisions within 1e-12 (relative) of their threshold are not compared (loop_ambiguous_calls)"])
+                         "proximity_t objects; decisions within 1e-12 (relative) of their threshold are not compared (loop_ambiguous_calls)",
+                         "stage WHOLE: Qplus / Qmult extracted to versions returning the same rational in lowest terms (Extract_C03.v); the recording of "
+                         "every solve's multipliers / every evaluation / the surviving rows in the mirrored loops"])
     cov = r.coverage
     dk = _kv(done[0]) if done else {}
     hist = {}
@@ -316,6 +331,21 @@ def run(tier, replay=None):
     cov["loop_long_calls_replayed_pass_by_pass_only"] = int(mk.get("loop_long_calls_pass_only", 0))
     cov["loop_ambiguous_calls"] = int(mk.get("loop_amb", 0))
     cov["loop_returned_status_histogram"] = mk.get("loop_status_hist")
+    # stage WHOLE
+    cov["whole_runs_recorded"] = len([l for l in lines if l.startswith("W ")])
+    cov["whole_runs_fully_replayed_in_one_call_of_the_composed_model"] = int(mk.get("whole_runs", 0))
+    cov["whole_runs_replayed_only_after_following_the_library_at_ambiguous_decisions"] = int(mk.get("whole_followed", 0))
+    cov["whole_ambiguous_decisions_followed"] = int(mk.get("whole_decisions_followed", 0))
+    cov["whole_ill_conditioned_miu_updates_followed"] = int(mk.get("whole_miu_followed", 0))
+    cov["whole_passes_compared_decision_by_decision"] = int(mk.get("whole_passes", 0))
+    cov["whole_fraction_fully_replayed"] = (round(int(mk.get("whole_runs", 0)) / max(1, int(mk.get("whole_recorded", 0))), 4))
+    cov["whole_runs_converged"] = int(mk.get("whole_converged", 0))
+    cov["whole_runs_budget_exit"] = int(mk.get("whole_budget_exits", 0))
+    cov["whole_appends_replayed"] = int(mk.get("whole_appends", 0))
+    cov["whole_aggregations_replayed"] = int(mk.get("whole_aggregations", 0))
+    cov["whole_ambiguity_rule"] = ("per decision: econverged / sconverged / m1..m4 / delete_inactive's alpha_i < eps0 / the branches of the two-row closed form are "
+                                   "ambiguous only within 1e-9 of the summed magnitudes of their terms; the library's branch is followed there, any other "
+                                   "differing decision or a differing end of the run is a reported mismatch; no run is skipped")
     cov["proximity_updates_replayed"] = int(mk.get("px_checked", 0))
     cov["proximity_updates_ill_conditioned_skipped"] = int(mk.get("px_amb", 0))
     cov["nesterov_updates_replayed"] = int(mk.get("ns_checked", 0))
@@ -343,7 +373,12 @@ def run(tier, replay=None):
         "curve search / RQB / FPBA: termination within the budget, statuses, monotonicity, bracket are theorems over exact rationals for every "
         "oracle; that the floating-point decisions follow them is searched (replay of every observed pass, direct oracles), as is progress "
         "(number of passes of one search call: no bound other than the budget exists)",
-        "proximity / Nesterov: rounding of the updates (compared within 1e-6 / 1e-12 relative), the square root as a witness"]
+        "proximity / Nesterov: rounding of the updates (compared within 1e-6 / 1e-12 relative), the square root as a witness",
+        "WHOLE: C03_whole_rqb / C03_whole_fpba are about the composed exact-rational model with the QP answer, the surviving rows, the "
+        "first-order oracle and the square root as oracles; that binary64 runs follow it is searched (stage WHOLE: complete mirrored runs "
+        "replayed from their recorded oracle answers -- same exit, iterations, evaluations, state value, centre, returned point, serious "
+        "centres exactly); the oracle conditions qp_ok (simplex, clean multipliers) and keep_ok (false of the unchanged code: known finding) "
+        "are measured / guarded, not proved"]
     cov["excluded_inputs"] = ([] if small else ["bundle::max_size in 2..4: delete_largest reads its threshold at index `count` instead of size()-count; "
                                                 "with max_size 3 or 4 the bundle reaches its capacity and append writes behind the buffers "
                                                 "(heap-buffer-overflow under ASan, see notes/C03.md)"]) + \
